@@ -270,7 +270,7 @@ type pubAnalysis struct {
 	ep    *Episode
 	pubs  map[int]*pubInfo // by marker number
 	byKey map[uint][]*pubInfo
-	order [3][]*pubInfo // by level, in order of the first Save attempt
+	order [3][]*pubInfo    // by level, in order of the first Save attempt
 	out   [][]*wire.Packet // per connection
 	in    [][]*wire.Packet
 	viol  []pv
